@@ -240,6 +240,40 @@ def oracle(seed, tier):
             viol.append({"what": "2-D composition / grain columns do not show the values their names denote", "probe": "2d-composition-column-offset", "dat_text": c["dat_text"][:200]})
         if len(samples) < 2 and rows:
             samples.append({"dat": c["dat_text"][:200], "header": " ".join(hdr), "row": " ".join(rows[0])[:160]})
+    # ---- malformed rows must be reported, not silently misread (last sentence of the statement)
+    mrng = random.Random(seed * 977 + 171)
+    wdir = proto.workdir("C17")
+    bin_ = os.path.join(build_repo.build("apps"), "bin", "gwb-dat")
+    base = [c for c in cases if c["rc"] == 0 and c["dim"] == 3 and c["rows"]][:budget(tier, 6, 40)]
+    bad_tokens = ["1.5d5", "150e3m", "500km", "35W", "12abc", "1e", "--5", "1.2.3", "0x1p3q", "3,5;", "abc", "1e5e2", "+-1", "7_000", "1.0f"]
+    nbad = 0
+    for ci, c in enumerate(base):
+        for trial in range(2):
+            rows = [list(r) for r in c["rows"]]
+            ri, cj = mrng.randrange(len(rows)), mrng.randrange(len(rows[0]))
+            kind = mrng.choice(["token", "token", "token", "short", "long"])
+            if kind == "token":
+                rows[ri][cj] = mrng.choice(bad_tokens)
+                what = "entry %d of data row %d is `%s`" % (cj, ri, rows[ri][cj])
+            elif kind == "short":
+                rows[ri] = rows[ri][:-1]
+                what = "data row %d has one entry too few" % ri
+            else:
+                rows[ri] = rows[ri] + ["1000"]
+                what = "data row %d has one entry too many" % ri
+            text = "# dim = 3\n# compositions = %d\n" % c["comps"] + ("# convert spherical = true\n" if c["convert"] else "") + "\n".join(" ".join(r) for r in rows) + "\n"
+            dpath = os.path.join(wdir, "bad_%d_%d.dat" % (ci, trial))
+            open(dpath, "w").write(text)
+            try:
+                r = subprocess.run([bin_, c["world"], dpath], cwd=wdir, stdout=subprocess.PIPE, stderr=subprocess.PIPE, text=True, timeout=300)
+            except subprocess.TimeoutExpired:
+                viol.append({"what": "gwb-dat hangs on a malformed file (%s)" % what, "dat_text": text, "probe_kind": "malformed"}); continue
+            n += 1; nbad += 1
+            printed = [l for l in r.stdout.split("\n") if l and not l.startswith("#")]
+            reported = r.returncode != 0 or "could not convert" in (r.stdout + r.stderr).lower() or "error" in r.stderr.lower()
+            if not reported and len(printed) >= len(rows):
+                viol.append({"what": "malformed row silently misread: %s, yet gwb-dat exits 0 and prints %d value rows (the bad row as: %s)" % (what, len(printed), printed[ri][:120] if ri < len(printed) else "?"),
+                             "dat_text": text, "world_json": c["world_json"]})
     # de-duplicate the two recorded findings
     seen, out = set(), []
     for v in viol:
@@ -249,7 +283,7 @@ def oracle(seed, tier):
                 continue
             seen.add(k)
         out.append(v)
-    return {"violations": out[:20], "summary": {"cases": n, "violations": len(out), "nontrivial": nontriv}, "samples": samples}
+    return {"violations": out[:20], "summary": {"cases": n, "violations": len(out), "nontrivial": nontriv, "malformed_files": nbad}, "samples": samples}
 
 
 def replay(rp):
